@@ -42,10 +42,12 @@ int main(int argc, char **argv)
 			if (rc == 1) { base64_encode_finish(&c, out + total, &ol); total += ol; }
 			vt_begin("V"); vt_int("id", kv_int(&kv, "id", 0)); vt_str("kind", kind); vt_int("rc", rc); vt_bytes("text", out, (size_t)total); vt_end();
 		} else if (!strcmp(kind, "b64dec")) {
-			BASE64_CTX c; base64_decode_init(&c); size_t cap = tn / 4 * 3 + 8; uint8_t *out = vh_exact(cap + 64); int ol = 0, total = 0, rc = 1; size_t off = 0;
+			BASE64_CTX c; base64_decode_init(&c); size_t cap = tn / 4 * 3 + 8; uint8_t *out = vh_exact(cap + 64); int ol = 0, total = 0, rc = 1, ended = 0; size_t off = 0;
 			for (int i = 0; i <= nch && rc == 1; i++) { size_t n = i < nch ? (size_t)chunks[i] : tn - off; if (off + n > tn) n = tn - off; if (!n) continue;
 				uint8_t *in = vh_exact(n); memcpy(in, text + off, n);
-				if (base64_decode_update(&c, in, (int)n, out + total, &ol) < 0) rc = -1; else total += ol; off += n; }   // 1 = more expected, 0 = padding seen, -1 = error
+				// 1 = more expected, 0 = end of content (padding) seen, -1 = error; base64.c leaves rejecting data after a 0 return to the caller, so this caller does
+				if (ended) { for (size_t j = 0; j < n; j++) if (!strchr(" \t\r\n", in[j]) || !in[j]) rc = -1; if (rc != 1) break; }
+				int r = base64_decode_update(&c, in, (int)n, out + total, &ol); if (r < 0) rc = -1; else { total += ol; if (r == 0) ended = 1; } off += n; }
 			if (rc == 1) { if (base64_decode_finish(&c, out + total, &ol) != 1) rc = -1; else total += ol; }
 			vt_begin("V"); vt_int("id", kv_int(&kv, "id", 0)); vt_str("kind", kind); vt_int("rc", rc); vt_int("cap", (long)cap); vt_bytes("out", out, rc == 1 ? (size_t)total : 0); vt_end();
 		} else if (!strcmp(kind, "hexdec")) {
